@@ -74,6 +74,10 @@ func replayEval(v *evalVector) (bool, map[string]any) {
 
 // modelEval runs MC_Eval for a family and replays every case.
 func modelEval(r *Run, family string, bound int) modelStats {
+	return modelEvalWith(r, family, bound, replayEval)
+}
+
+func modelEvalWith(r *Run, family string, bound int, replay func(*evalVector) (bool, map[string]any)) modelStats {
 	nsh := 6
 	var st modelStats
 	var mu sync.Mutex
@@ -100,7 +104,7 @@ func modelEval(r *Run, family string, bound int) modelStats {
 				if err := json.Unmarshal(js, &v); err != nil {
 					Fatal("bad vector from TLC: %v: %.300s", err, js)
 				}
-				agree, obs := replayEval(&v)
+				agree, obs := replay(&v)
 				mu.Lock()
 				st.Replayed++
 				tags[v.Tag]++
